@@ -187,6 +187,14 @@ Proof.
 Qed.
 Print Assumptions C12_hand_programs_return.
 
+(* the hand transcription is not out of date: some mutex of the extracted service has an entry
+   with exactly the lock traces of the refresh (return early | RLock RUnlock Lock Unlock), and every
+   lock trace of every hand program is a lock trace of some entry on that mutex *)
+Theorem C12_hand_programs_match_source :
+  hand_matches_source g_blockrelay_standard entries_blockrelay_standard = true.
+Proof. vm_compute. reflexivity. Qed.
+Print Assumptions C12_hand_programs_match_source.
+
 (* ------------------------------------------------------------------------------------------- *)
 (* 4. The code before 6cf77a3 is refuted                                                         *)
 
